@@ -146,6 +146,11 @@ def binary_leg(ucg, rng, n, rep, stats):
             if p.returncode not in (0, 1):
                 rep.disagree(case, key="crash")
                 continue
+            # whatever the outcome and the mode: nothing the process prints may contain the value of a variable the
+            # program did not read (warnings of the non-strict mode included)
+            if SECRET in err or SECRET in p.stdout.decode("utf-8", "replace"):
+                rep.disagree(case, key="output-discloses-environment")
+                continue
             if use_set:
                 ok = p.returncode == 0 and os.path.exists(art)
                 if ok:
